@@ -29,6 +29,10 @@ fn ha_class(ha: &BigUint) -> &'static str {
         "residue-top"
     } else if (ha >> 256u32) == BigUint::from(u64::MAX) {
         "top-limb-ones"
+    } else if (ha >> 256u32) == (&nm1 >> 192u32) || (ha >> 256u32) == ((&nm1 * 2u32) >> 256u32) {
+        "top-limb-of-divisor-multiple"
+    } else if { let q = ha / &nm1; let b = q.bits(); b >= 32 && (q.count_ones() <= 2 || (&q + 2u32).count_ones() <= 2 || (&q + 1u32).count_ones() <= 2) } {
+        "quotient-edge"
     } else {
         "generic"
     }
@@ -181,6 +185,74 @@ pub fn run(ctx: &Ctx) {
             3 => (any::<u64>(), 0u32..6).prop_map(move |(q, r)| HaCase { ha: ha40(&(BigUint::from(q) * &nm1 + r)) }),
             1 => (0u32..320).prop_map(|i| HaCase { ha: ha40(&(BigUint::one() << i)) }),
         ]
+    }, check_ha);
+
+    ctx.cold("cold_start_hashes", "H1 / H2 as the first library operation of a fresh process", || {
+        vec![HCase { which: 1, z_len: 5, z_seed: 1, hid: 1, w_len: 0 }, HCase { which: 1, z_len: 0, z_seed: 2, hid: 3, w_len: 0 }, HCase { which: 2, z_len: 20, z_seed: 3, hid: 1, w_len: 384 }]
+    }, check_h);
+    ctx.cold("cold_start_extraction", "key extraction (three kinds, and the crafted t1 = 0 case) as the first library operation of a fresh process", || {
+        let mut v = Vec::new();
+        for hid in 1..=3u8 {
+            v.push(Extract { hid, k: Hex(expand_bytes(hid as u64 ^ 0xc16d, 32)), craft_fail: false, id_len: 5, id_seed: hid as u64 });
+            v.push(Extract { hid, k: Hex(expand_bytes(hid as u64 ^ 0xc16e, 32)), craft_fail: true, id_len: 3, id_seed: hid as u64 ^ 9 });
+        }
+        v
+    }, check_extract);
+
+    ctx.generated("ha_divisor_prefix_patterns", "proptest Ha built to sit on the edges of a multi-limb division by N-1: (a) q(N-1)+r with q in {0,1,2, 2^32+-1, 2^63+-1, 2^64-2..2^64+2, q_max-2..q_max} and r uniform or boundary-limbed; (b) Ha whose leading 1..4 limbs equal those of N, N-1 or 2(N-1) shifted to the top, followed by a limb one above / one below / all ones / zero and random limbs; (c) m(N-1)2^(64k) +- 2^j", ctx.tier.pick(200_000, 2_000_000), || {
+        let n = r9::params().n.clone();
+        let nm1 = &n - 1u32;
+        let top: BigUint = (BigUint::one() << 320u32) - 1u32;
+        let qmax = &top / &nm1;
+        let mut qs: Vec<BigUint> = vec![BigUint::zero(), BigUint::one(), BigUint::from(2u32)];
+        for e in [32u32, 63, 64] {
+            for d in 0..3u32 {
+                qs.push((BigUint::one() << e) + d);
+                qs.push((BigUint::one() << e) - d);
+            }
+        }
+        for d in 0..3u32 {
+            qs.push(&qmax - d);
+        }
+        let limb = prop::sample::select(vec![0u64, 1, 1 << 32, 1 << 63, u64::MAX, u64::MAX - 1]);
+        let (nm1a, nm1b, nm1c) = (nm1.clone(), nm1.clone(), nm1.clone());
+        let topa = top.clone();
+        let a = (prop::sample::select(qs), prop_oneof![2 => prop::array::uniform32(any::<u8>()).prop_map(|b| from_be(&b)), 1 => prop::array::uniform4(limb).prop_map(|l| from_limbs(&l))])
+            .prop_map(move |(q, r)| { let v = &q * &nm1a + (r % &nm1a); HaCase { ha: ha40(&(if v > topa { v % (&topa + 1u32) } else { v })) } });
+        // (b) leading limbs of a multiple of the divisor, then a deviating limb, then random limbs
+        let b = (0..3u8, 1..=4usize, 0..5u8, prop::array::uniform32(any::<u8>()), any::<u64>()).prop_map(move |(which, keep, dev, rnd, extra)| {
+            let base: BigUint = match which { 0 => n.clone(), 1 => nm1b.clone(), _ => &nm1b * 2u32 };
+            // align the base's most significant limb with the top limb of the 320-bit value
+            let shift = 320 - ((base.bits() + 63) / 64) * 64;
+            let aligned = &base << shift;
+            let mut l: Vec<u64> = aligned.to_u64_digits();
+            l.resize(5, 0);
+            // l[4] is the top limb; keep `keep` limbs from the top, deviate the next, randomise the rest
+            let r = from_be(&rnd).to_u64_digits();
+            for i in 0..5usize {
+                let from_top = 4 - i;
+                if from_top < keep {
+                    continue;
+                }
+                if from_top == keep {
+                    l[i] = match dev { 0 => l[i].wrapping_add(1), 1 => l[i].wrapping_sub(1), 2 => u64::MAX, 3 => 0, _ => extra };
+                } else {
+                    l[i] = r.get(i).copied().unwrap_or(extra);
+                }
+            }
+            let mut v = BigUint::zero();
+            for i in (0..5).rev() {
+                v = (v << 64) + l[i];
+            }
+            HaCase { ha: ha40(&v) }
+        });
+        let c = (1..4u32, 0..2u32, 0..300u32, any::<bool>()).prop_map(move |(m, k, j, plus)| {
+            let base = (&nm1c * m) << (64 * k);
+            let d = BigUint::one() << j;
+            let v = if plus { &base + &d } else if base > d { &base - &d } else { base.clone() };
+            HaCase { ha: ha40(&(v % (BigUint::one() << 320))) }
+        });
+        prop_oneof![3 => a, 4 => b, 1 => c]
     }, check_ha);
 
     ctx.generated("h1_h2_generated", "proptest H1(ID||hid) and H2(M||w) against the reference (prefix, counter framing, 40-byte truncation)", ctx.tier.pick(20_000, 300_000), || {
